@@ -21,6 +21,10 @@ REG = Registry(
 )
 
 
+# sums of products at the very bottom of the float range round to multiples of 5e-324, not relative to their size
+SUBNORMAL = 1e-300
+
+
 def g_score(draw):
     C, F = gen.dims(draw, maxC=5, maxF=4)
     r = gen.rng(draw)
@@ -41,6 +45,19 @@ def g_score(draw):
             X, _ = gen.data_from(draw, ubm, gen.integer(draw, 1, 10), kind="bulk", r=r)
             s = ref.gmm_stats(X, ubm["weights"], ubm["means"], ubm["variances"])
             stats.append({"t": s["t"], "n": s["n"], "sum_px": s["sum_px"], "sum_pxx": s["sum_pxx"]})
+    if C >= 2 and gen.choice(draw, [False, False, False, True]):
+        # a component that is nearly unreachable for this item (a few dozen standard deviations away): its
+        # posterior mass is a number at the very bottom of the float range, not an exact zero
+        for s in stats:
+            if s["t"] and gen.boolean(draw):
+                c = gen.integer(draw, 0, C - 1)
+                m = float(np.sum(s["n"]))
+                s["n"] = np.array(s["n"], dtype=float)
+                s["sum_px"] = np.array(s["sum_px"], dtype=float)
+                s["sum_pxx"] = np.array(s["sum_pxx"], dtype=float)
+                tiny = max(m, 1.0) * 10.0 ** r.uniform(-322, -290)
+                x = ubm["means"][c] + scales * r.normal(0, 1, F)
+                s["n"][c], s["sum_px"][c], s["sum_pxx"][c] = tiny, tiny * x, tiny * x * x
     off_kind = gen.choice(draw, ["none", "one", "stack", "one"])
     if off_kind == "none":
         offsets = None
@@ -143,7 +160,7 @@ def c_formula(ctx, case):
         b = np.abs(s["sum_px"]) + s["n"][:, None] * (np.abs(p["means"]) + off)
         a = np.abs(case["models"] - p["means"][None]).max(axis=0) / p["variances"]
         mag = max(mag, float((a * b).sum()) / (max(s["t"], 1) if case["normalise"] else 1))
-    ctx.close(got, want, "linear score", rtol=1e-10, atol=1e-12 * mag)
+    ctx.close(got, want, "linear score", rtol=1e-10, atol=1e-12 * mag + SUBNORMAL)
     ctx.finite(got, "linear score")
 
 
@@ -163,7 +180,7 @@ def c_algebra(ctx, case):
     # homogeneity: ubm + s*delta
     s = 2.5
     scaled = call(case, ubm, models=mu[None] + s * (case["models"] - mu[None]))
-    ctx.close(scaled, s * base, "score(ubm + s*delta) == s*score(ubm + delta)", rtol=1e-9, atol=1e-12 * scale)
+    ctx.close(scaled, s * base, "score(ubm + s*delta) == s*score(ubm + delta)", rtol=1e-9, atol=1e-12 * scale + SUBNORMAL)
     # ... also for a model that is only just off the UBM (a lightly adapted client): the score is linear, not zero.
     # The offset is built per entry relative to that entry's own mean, so that it survives the rounding of mu + delta
     tiny = 1e-7 * np.maximum(np.abs(mu), 1e-3 * np.sqrt(p["variances"]))[None] * np.sign(case["models"] - mu[None] + 1e-300)
@@ -171,14 +188,14 @@ def c_algebra(ctx, case):
     got_tiny = call(case, ubm, models=m_tiny)
     want_tiny = ref.linear_score(m_tiny, p["means"], p["variances"], case["stats"], case["offsets"], case["normalise"])
     mag_t = float(np.abs(want_tiny).max()) + 1e-300
-    ctx.close(got_tiny, want_tiny, "score of a model 1e-7 (relative) off the UBM", rtol=1e-6, atol=1e-6 * mag_t)
+    ctx.close(got_tiny, want_tiny, "score of a model 1e-7 (relative) off the UBM", rtol=1e-6, atol=1e-6 * mag_t + SUBNORMAL)
     # additivity in delta
     if len(case["models"]) >= 2:
         d0 = case["models"][0] - mu
         d1 = case["models"][1] - mu
         both = call(case, ubm, models=np.array([mu + d0 + d1]))
         ctx.close(both[0], base[0] + base[1], "score(ubm+d0+d1) == score(ubm+d0)+score(ubm+d1)", rtol=1e-9,
-                  atol=1e-12 * scale * 4)
+                  atol=1e-12 * scale * 4 + SUBNORMAL)
     # additivity over test statistics (no normalisation, common offset)
     if len(case["stats"]) >= 2 and (case["offsets"] is None or np.ndim(case["offsets"]) == 2):
         a, b = case["stats"][0], case["stats"][1]
@@ -227,4 +244,4 @@ def c_fd(ctx, case):
         terms += float((post[c][:, None] * np.abs(delta[c] / p["variances"][c]) * np.abs(X - p["means"][c])).sum())
     ctx.note(p["C"] >= 2 and p["C"] != p["F"], "C!=F" if p["C"] != p["F"] else "C==F")
     ctx.stat_max("|fd - score| / sum|terms|", abs(rich - score) / (terms + 1e-300))
-    ctx.close(score, rich, "linear score vs finite-difference derivative", rtol=0, atol=1e-6 * terms + 1e-11 * abs(f(0)))
+    ctx.close(score, rich, "linear score vs finite-difference derivative", rtol=0, atol=1e-6 * terms + 1e-11 * abs(f(0)) + SUBNORMAL)
